@@ -47,6 +47,7 @@ class State:
         self.dns_done = {}
         self.detached = set()  # stand-alone bundles not (yet) attached to the document
         self.nspool = {}
+        self.style_xor = 0    # flips the call style of factory calls (route twins)
 
     def namespace(self, prefix, uri):
         """Programs reuse their Namespace objects (as users do: EX = Namespace('ex', ...); EX['a'], doc.add_namespace(EX)),
@@ -201,7 +202,7 @@ def exec_op(st, op):
             rec = recv.bundle._records[-1] if len(recv.bundle._records) == before + 1 else None
         elif via.startswith("factory:"):
             fname = via.split(":", 1)[1]
-            style = _style(label)
+            style = _style(label) ^ st.style_xor
             if fname == "collection":
                 rec = b.collection(ident, _extras_arg(ex, style)) if not style & 2 else b.collection(identifier=ident, other_attributes=_extras_arg(ex, style))
             else:
@@ -211,7 +212,7 @@ def exec_op(st, op):
                 else:
                     rec = meth(*pos, identifier=ident, other_attributes=_extras_arg(ex, style))
         elif via == "factory" and not (kind in NO_ID_FACTORY and (rid is not None or ex)):
-            style = _style(label)
+            style = _style(label) ^ st.style_xor
             if kind in ("Entity", "Agent"):
                 rec = getattr(b, factory)(ident, _extras_arg(ex, style)) if not style & 2 else \
                     getattr(b, factory)(identifier=ident, other_attributes=_extras_arg(ex, style))
@@ -273,9 +274,10 @@ def exec_op(st, op):
     raise AssertionError("unknown op %r" % (op,))
 
 
-def run(ops, on_step=None, stop_on_error=False):
+def run(ops, on_step=None, stop_on_error=False, style_xor=0):
     """Run a program. Outcomes: 'ok', 'skip:<why>', 'refused:<ProvException subclass>', 'error:<Type>: msg'."""
     st = State()
+    st.style_xor = style_xor
     for i, op in enumerate(ops):
         res = None
         try:
